@@ -131,7 +131,8 @@ def validate(ctx, items, which=None):
             continue
         o = r["obs"]
         if o["snerr"] > 0:
-            fails.append((it, "decorated_program_rejected", dict(err0=o.get("serr0"))))
+            if not str(it["id"]).startswith("fix"):     # a fixture may use syntax of a plugin (===): not in the subset
+                fails.append((it, "decorated_program_rejected", dict(err0=o.get("serr0"))))
             continue
         if any(x.get("panic") for x in o["outs"]):
             fails.append((it, "total", dict(panic=[x["panic"] for x in o["outs"] if x.get("panic")][0])))
@@ -170,6 +171,18 @@ def validate(ctx, items, which=None):
     return fails
 
 
+def fixture_items():
+    """the repository's own fixtures (testdata/*.js), as they are and with Windows line endings"""
+    import glob
+    out = []
+    for f in sorted(glob.glob(os.path.join(vlib.REPO, "testdata", "*.js"))):
+        text = open(f, "rb").read().decode("latin-1")
+        name = os.path.basename(f)
+        out.append(dict(id="fix:" + name, text=text, plain=None, mouts=None, decorated=True))
+        out.append(dict(id="fixcrlf:" + name, text=text.replace("\n", "\r\n"), plain=None, mouts=None, decorated=True))
+    return out
+
+
 def build_items(ctx, quick):
     exported, _ = c02.mc_export(ctx, "MC_C06", "MC_C06_quick.cfg" if quick else "MC_C06_thorough.cfg")
     items, seen = [], set()
@@ -185,7 +198,7 @@ def build_items(ctx, quick):
     dec = [i for i in items if i["decorated"]]
     ctx.rng.shuffle(dec)
     cap = 5000 if quick else 60000
-    return und + dec[:cap], len(und), len(dec)
+    return und + fixture_items() + dec[:cap], len(und), len(dec)
 
 
 def run(ctx, which=None):
